@@ -414,11 +414,12 @@ def run_A(res, rnd, seed, n, known, tier):
         elif k < 7:
             b = gen.random_input(rnd)
             kind = "mixed"
-        elif k < 9:
+        elif k < 8:
             b = rnd.choice(corpus)
             kind = "repo-test"
         else:
-            b = rnd.choice(["x", "hp + 1", "`{x}{y}`", "&v = x + 1; v", "x = 1; x = x + 1; x", "m = {'k': 1}; m.k", "val + val", "g(3)", "arr[1] = 5; arr",
+            b = rnd.choice(["'a_zq5'", "x = 'b' + 'a_zq9'; x", "`k_zq5`", "[1, 2, '_zq8'][2]", "x_zq7 = 3; x_zq7 + 1", "1 + 2 // _zq4\n", "m = {'k_zq1': 1}; m.k_zq1",
+                            "`{x}_zq3`", "'_zq1' + '_zq2'", "3 + x_zq7", "x", "hp + 1", "`{x}{y}`", "&v = x + 1; v", "x = 1; x = x + 1; x", "m = {'k': 1}; m.k", "val + val", "g(3)", "arr[1] = 5; arr",
                             "(1+2)*3", "3d6k2 + (2d4)d3", "this.x = 4; this.x", "store('q', 5); load('q')", "b + p2 + 3a8 + 2c8 + f"]).encode()
             kind = "load-store"
         mask = 0 if rnd.random() < 0.7 else rnd.randrange(1, 2048)
